@@ -26,7 +26,7 @@ REQUIRED = ["iff_checked:plurality", "iff_checked:approval", "iff_checked:superm
             "margin_checked:contest_level_call_with_confirmed_assertions", "assertions_built_by_make_all_assertions",
             "candidate_names_contained_in_one_another", "contest_carries_a_reported_tally_when_assertions_are_made",
             "tally_taken_together_with_a_contest_of_another_n_winners", "ballots_in_pooled_batches_with_batch_means_set",
-            "margin_checked:sub_collection"]
+            "margin_checked:sub_collection", "contest_identifier_assigned_after_assertions_were_made"]
 ASSUMPTIONS = ["shares f in {1/2,1/4,1/8} (f and 1/(2f) both dyadic) are exact in binary; inexact shares (2/3, 0.6) are only evaluated at a "
                "distance from the threshold that rounding cannot bridge", "a mark for a name that is not on the contest's "
                "candidate list (write-in) appears only on ballots with no mark for a listed candidate, so that no "
@@ -89,6 +89,8 @@ def gen_profile(rng, kind, stratum):
     if rng.random() < 0.3:
         prof["cards_first"] = nb + rng.choice((1, 3, nb))
     prof["via_make_all"] = rng.random() < 0.4
+    if rng.random() < 0.1:
+        prof["id_first"] = "con (draft)"   # the contest gets its final identifier after its assertions were made
     prof["pooled"] = rng.random() < 0.25
     if rng.random() < 0.3:
         order = sorted(cands, key=lambda c: (c not in winners, rng.random()))   # reported: winners ahead, whatever was cast
@@ -180,7 +182,7 @@ def build(prof):
     ncards = len(prof["ballots"])
     # the card count known when the assertions are made may be a preliminary one (revised later by check_cards /
     # make_phantoms / the canvass): margins from tallies are "over the same cards", i.e. the count the contest holds then
-    con = Contest.from_dict({"id": "con", "name": "con", "risk_limit": 0.05, "cards": prof.get("cards_first") or ncards,
+    con = Contest.from_dict({"id": prof.get("id_first") or "con", "name": "con", "risk_limit": 0.05, "cards": prof.get("cards_first") or ncards,
                              "choice_function": scf,
                              "n_winners": len(prof["winners"]), "share_to_win": prof["share"],
                              "candidates": list(prof["cands"]), "winner": list(prof["winners"]),
@@ -202,6 +204,7 @@ def build(prof):
         con._args_mutated = False
         asns = con.assertions
         con.cards = ncards
+        con.id = "con"
         return con, cvrs, asns, Contest
     for _ in range(2):
         if kind == "supermajority":
@@ -213,6 +216,7 @@ def build(prof):
                                                        test=NonnegMean.alpha_mart, estim=NonnegMean.shrink_trunc)
     con._args_mutated = (before != (winners_arg, losers))
     con.cards = ncards
+    con.id = "con"
     return con, cvrs, asns, Contest
 
 
@@ -239,6 +243,8 @@ def run_case(prof, rec):
         rec.count("assertions_built_by_make_all_assertions")
     if prof.get("reported_tally"):
         rec.count("contest_carries_a_reported_tally_when_assertions_are_made")
+    if prof.get("id_first"):
+        rec.count("contest_identifier_assigned_after_assertions_were_made")
     if any(a != b and a in b for a in cands for b in cands):
         rec.count("candidate_names_contained_in_one_another")
     if con._args_mutated:
